@@ -138,7 +138,9 @@ def leaves_equal(a, b):
         kb = 'INT' if tb[0] == 'ENUM' else tb[0]
         if ka != kb:
             return False
-        if ta[0] == 'STR' and ta[1] != tb[1]:
+        # T61String / ISO646String are X.680 synonyms of TeletexString / VisibleString: the same type on the wire
+        syn = {'T61String': 'TeletexString', 'ISO646String': 'VisibleString'}
+        if ta[0] == 'STR' and syn.get(ta[1], ta[1]) != syn.get(tb[1], tb[1]):
             return False
         if not M.values_equal((ka,) if ka != 'STR' else ta, va, vb):
             return False
